@@ -1,4 +1,5 @@
 import Logrange.Proofs.TruncateDry
+import Logrange.Proofs.TruncateWriter
 import Logrange.Generated.C09
 /-!
 # C09 — Truncation removes only whole oldest chunks, within the requested bounds
@@ -419,6 +420,86 @@ the next `Get` answers `ClosedState` instead of the first remaining event. -/
 theorem cex_open_handle_after_truncate :
     getAfterRemoval [(2, 3)] ⟨1, 3⟩ true true = .closedState ∧ getAfterRemoval [(2, 3)] ⟨1, 3⟩ false true = .record 2 0 := by
   decide
+
+/-! ## one partition while a writer appends (every schedule of the writer between the snapshot and the deletion) -/
+
+/-- **Under a concurrent writer TRUNCATE still removes only whole oldest chunks.** `snap` is the chunk list `truncate`
+decided on, `now` the journal when `DeleteChunks` runs — any journal the snapshot can have grown into (`GrownFrom`: the
+writer appended to the last chunk and/or opened new chunks, any number of times, at any moments). Then exactly the `n`
+oldest chunks of the journal as it is then go (`n` = the chooser's count on the snapshot, `n ≤ len(snap)`); the content
+afterwards is a suffix of the content at that moment (which is the old content followed by everything appended); and
+every chunk the writer opened after the snapshot survives whole. -/
+theorem truncate_under_writer (p : Params) (snap now : List Chunk) (hg : GrownFrom snap now) (hs : Ascending now) :
+    (chooseNow p snap).n ≤ snap.length ∧
+    truncateAt strict p snap now = (if p.dryRun = true then now else now.drop (chooseNow p snap).n) ∧
+    (∀ {α : Type} (ev : Chunk → List α), (truncateAt strict p snap now).flatMap ev <:+ now.flatMap ev) ∧
+    now.drop snap.length <:+ truncateAt strict p snap now := by
+  have hle := choose_n_le strict p snap
+  have heq := truncateAt_eq strict p snap now hg hs
+  refine ⟨hle, heq, ?_, ?_⟩
+  · intro α ev
+    rw [heq]
+    split
+    · exact List.suffix_refl _
+    · refine ⟨(now.take (chooseNow p snap).n).flatMap ev, ?_⟩
+      rw [← List.flatMap_append, List.take_append_drop]
+  · rw [heq]
+    split
+    · exact List.drop_suffix _ _
+    · have e : now.drop snap.length = (now.drop (chooseNow p snap).n).drop (snap.length - (chooseNow p snap).n) := by
+        rw [List.drop_drop]; congr 1; omega
+      rw [e]
+      exact List.drop_suffix _ _
+
+/-- **Size clause under a concurrent writer**: the sizes the snapshot showed are lower bounds of the sizes at deletion
+time, so a chunk taken by the size loop goes from a partition that IS above MAXSIZE, and after every single removal
+(either loop) at least MINSIZE IS left. -/
+theorem size_rule_under_writer (p : Params) (snap now : List Chunk) (hg : GrownFrom snap now) (i : Nat) :
+    (i < (chooseNow p snap).bySize → p.maxSrc < psize (now.drop i)) ∧
+    (i < (chooseNow p snap).n → p.minSrc ≤ psize (now.drop (i + 1))) := by
+  have g1 := grown_psize_drop hg i
+  have g2 := grown_psize_drop hg (i + 1)
+  refine ⟨?_, ?_⟩
+  · intro hi
+    have := ((choose_spec strict p snap).2.1 i hi).2.1
+    rw [← psize_drop_eq] at this
+    omega
+  · intro hi
+    have : p.minSrc ≤ psize (snap.drop (i + 1)) := by
+      rw [psize_drop_eq]
+      by_cases h : i < (chooseNow p snap).bySize
+      · exact ((choose_spec strict p snap).2.1 i h).2.2
+      · exact ((choose_spec strict p snap).2.2 i (by omega) hi).2
+    omega
+
+/-- **What goes is what the snapshot showed, unless everything goes**: when the chooser keeps at least one chunk of
+the snapshot, the removed chunks are the snapshot's, unchanged (no appended event is removed, and
+`before_removes_only_older` applies to them as they are). -/
+theorem removed_as_seen_partial (p : Params) (snap now : List Chunk) (hg : GrownFrom snap now)
+    (h : (chooseNow p snap).n < snap.length) : now.take (chooseNow p snap).n = snap.take (chooseNow p snap).n :=
+  grown_take hg _ h
+
+/-- When TRUNCATE takes EVERY chunk it saw, the last of them can have grown in between: `BEFORE 10` over a partition
+whose only chunk ended at timestamp 5; an event of timestamp 12 is appended to that chunk after the time loop looked at
+its hull and before `DeleteChunks`; the chunk goes with it. (Race window between `SyncChunks` and `DeleteChunks`; no
+lock covers it. Finding F-C09-R1: reproduced on the implementation with a hook point before the `DeleteChunks` call —
+`TRUNCATE … BEFORE "50"` removed the chunk together with the acknowledged event of timestamp 400 and dropped the
+partition.) -/
+theorem cex_before_race :
+    GrownFrom [c 1 100 5] [c 1 119 12] ∧ (chooseNow { oldestTs := 10 } [c 1 100 5]).n = 1 ∧
+    truncateAt strict { oldestTs := 10 } [c 1 100 5] [c 1 119 12] = [] := by
+  refine ⟨?_, by decide, by decide⟩
+  exact GrownFrom.cons _ _ [] [] rfl (by decide) (by intro h; exact absurd rfl h) (GrownFrom.nil [])
+
+/-- non-vacuity: a snapshot of three chunks grown by an append to the last one and two new chunks; MAXSIZE 400 takes the
+oldest, everything else — including what the writer added — stays -/
+example : GrownFrom [c 10 200 5, c 13 200 9, c 17 120 12] [c 10 200 5, c 13 200 9, c 17 150 13, c 20 90 14, c 21 10 15] ∧
+    truncateAt strict { maxSrc := 400, minSrc := 100 } [c 10 200 5, c 13 200 9, c 17 120 12]
+      [c 10 200 5, c 13 200 9, c 17 150 13, c 20 90 14, c 21 10 15] = [c 13 200 9, c 17 150 13, c 20 90 14, c 21 10 15] := by
+  refine ⟨?_, by decide⟩
+  refine GrownFrom.cons _ _ _ _ rfl (by decide) (fun _ => rfl) ?_
+  refine GrownFrom.cons _ _ _ _ rfl (by decide) (fun _ => rfl) ?_
+  exact GrownFrom.cons _ _ [] _ rfl (by decide) (by intro h; exact absurd rfl h) (GrownFrom.nil _)
 
 /-! ### non-vacuity: the hypotheses above are met by concrete, non-trivial states -/
 
